@@ -66,9 +66,17 @@ def run_cmp(cases, res):
             for name, k in (('py', num), ('np.float64', np.float64(num)), ('np.int64', np.int64(num)) if isinstance(num, int) else ('np.float32', np.float32(num) if float(np.float32(num)) == float(num) else np.float64(num))):
                 rs = (k < x, k <= x, k == x, k != x, k > x, k >= x)
                 gotl[name] = [bool(np.asarray(r).reshape(-1)[0]) for r in rs]
+            # the comparison functions of NumPy called by name (default array_op_method: they compute on the values): a truth value, the same one
+            gotu = None
+            if c.get('array_op_method', 'repr') == 'repr':
+                UF = (np.less, np.less_equal, np.equal, np.not_equal, np.greater, np.greater_equal)
+                ru = [u(x, y) for u in UF]; rk = [u(x, num) for u in UF]
+                if any(isinstance(r, fx.Fxp) for r in ru + rk):
+                    res.fail(c, 'C16: a NumPy comparison function (np.less ... np.greater_equal) returned a fixed-point object instead of a truth value', got=str([type(r).__name__ for r in ru + rk])); continue
+                gotu = ([bool(np.asarray(r).reshape(-1)[-1]) for r in ru], [bool(np.asarray(r).reshape(-1)[0]) for r in rk])
         except Exception as e:
             res.fail(c, 'C16: a comparison raised %s' % lib.exc_name(e), got=str(e)[:200]); continue
-        c['_gotl'] = gotl
+        c['_gotl'] = gotl; c['_gotu'] = gotu
         pend.append((c, got, gotn)); reqs.append([50] + e_fmt(*fxm) + [c['cx']] + e_fmt(*fym) + [c['cy']] + e_f64(float(c['num'])))
     outs = model_call(reqs)
     for (c, got, gotn), out in zip(pend, outs):
@@ -81,6 +89,9 @@ def run_cmp(cases, res):
             res.fail(c, 'C16: comparison of two fixed-point objects disagrees with the exact stored values', expected=dict(zip(OPS, want)), got=dict(zip(OPS, got))); continue
         if gotn != wantn:
             res.fail(c, 'C16: comparison with a plain number disagrees with the exact stored value', expected=dict(zip(OPS, wantn)), got=dict(zip(OPS, gotn))); continue
+        gotu = c.pop('_gotu')
+        if gotu is not None and (gotu[0] != want or gotu[1] != wantn):
+            res.fail(c, 'C16: a NumPy comparison function called by name disagrees with the exact stored values', expected=(dict(zip(OPS, want)), dict(zip(OPS, wantn))), got=(dict(zip(OPS, gotu[0])), dict(zip(OPS, gotu[1])))); c.pop('_gotl', None); continue
         gotl = c.pop('_gotl'); wantl = [pyop(o, nv, xv) for o in OPS]
         badl = [k for k, g in gotl.items() if g != wantl]
         if badl:
